@@ -9,92 +9,100 @@ import RModel.Props.C19g
   C19 — Machine-readable output is one well-formed, schema-conformant document.
   (property theorems only; the model is Model/Output.lean, the tables are Gen/Bindings.lean and Gen/OutputShapes.lean)
 
+  State of /repo this file is written for: the CLI-side defects are repaired (6463ac6 replace --output json applies,
+  363d4c7 + cc8b751 error document, bfb97ea prompt on stderr, 9b4e272, 7e5290d, 29e3f64, 56d4ab2); what remains is on the
+  consumer side: cliService.history / cliService.status declare types the CLI does not emit (findings
+  history_shape_mismatch, status_shape_mismatch; proposal seeded/_fixes/c19_vscode_history_status_shapes.diff).  The one guard
+  left, `shapeMismatch` (Props/C19a.lean), and the two theorems about those commands are stated over flags that
+  translate/bindings.py reads from the TypeScript sources, so this file checks unchanged before and after that proposal
+  lands; the fully unguarded version is kept in seeded/_fixes/c19_props_after_fixes/.
+
   The table `Output.rows` is: every command × {--output json, summary} × --quiet × --dry-run (where accepted) × -y
   (rename, replace) × a --preview value given or not × --no-regex (replace) × {something found, nothing found} ×
   {no failure, failure at each fallible site of the handler}; the conformance statements range over
   command × {matches, none} × {renames, none} (`docScenarios`).
-  All statements are Boolean evaluations of that finite table, closed by kernel evaluation (`decide +kernel`).  The
-  evaluations themselves live in the part modules Props/C19a … C19g (namespace `C19.Part`, same statements, with the
-  non-vacuity examples) so that lake runs them in parallel; every theorem below restates its statement in full and is
-  closed by the part's theorem, so this file is the complete list of what is proved.
+  All statements are Boolean evaluations of that finite table, closed by kernel evaluation (`decide +kernel`) in the part
+  modules Props/C19a … C19g (namespace `C19.Part`, same statements, with the non-vacuity examples) so that lake runs them
+  in parallel; every theorem below restates its statement in full and is closed by the part's theorem.
 
-  The decidable guards are defined in Props/C19a.lean:
-    replaceJsonQuiet r   := r.cmd == .replace && r.json && r.quiet
-    replaceEarlyReturn r := r.cmd == .replace && r.yes && !r.dryRun && !r.planEmpty && r.json
-    shapeMismatch c m n  := c == .history || c == .status
+    shapeMismatch c := (c == .history && !Gen.vscodeHistoryUnwrapsEntries) || (c == .status && !Gen.vscodeStatusDeclaresPendingPlan)
 -/
 namespace C19
 open Output
 
-/-- The property at full strength (false today, see the witnesses): in every `--output json` row there is exactly one
-    stdout emission, it is a JSON document that is a member of every type a wrapper declares for the command, and the
-    status is 0 exactly when the requested operation was performed. -/
+/-- The property at full strength (false today because of `history` and `status`, see the two theorems about them): in
+    every `--output json` row there is exactly one stdout emission and it is a JSON document of known shape; when nothing
+    failed it is a member of every type a wrapper declares for the command (in every scenario compatible with the row),
+    when something failed it is the error document; and the status is 0 exactly when the requested operation was performed. -/
 def C19_full : Prop :=
-  ∀ r ∈ jsonRows, ∀ s ∈ docScenarios r.cmd, (s.1 && s.2) = r.planEmpty →
-    check r (fun o => oneDocument o && conformsCmd r.cmd s.1 s.2 && (o.exitZero == succeeded r o)) = true
+  (jsonRows.all fun r => (docScenarios r.cmd).all fun s => ((s.1 && s.2) != r.planEmpty) ||
+    check r (fun o => oneDocument o && (o.failed || conformsCmd r.cmd s.1 s.2) && (o.exitZero == succeeded r o))) = true
+
+/-- The property for every row, except that the document of a command in `shapeMismatch` need not be a member of the
+    declared type. -/
+theorem C19_partial :
+    (jsonRows.all fun r => (docScenarios r.cmd).all fun s => ((s.1 && s.2) != r.planEmpty) ||
+      check r (fun o => oneDocument o && (o.failed || shapeMismatch r.cmd || conformsCmd r.cmd s.1 s.2)
+                        && (o.exitZero == succeeded r o))) = true := Part.C19_partial
 
 /-! ### exactly one document -/
 
-/-- Every `--output json` row in which nothing fails — except `replace --output json --quiet` — writes exactly one
-    stdout emission; it is a JSON document whose shape is known, and it is the command's document `emittedDoc` whatever
-    the options and the scenario are. -/
-theorem one_document_partial :
+/-- Every `--output json` row writes exactly one stdout emission and it is a JSON document whose shape is known; when
+    nothing fails it is the command's document `emittedDoc` whatever the options and the scenario are (for `replace`
+    without `-y` or with `--dry-run` it is the bare plan: a preview). -/
+theorem one_document :
     (jsonRows.all fun r => check r fun o =>
-      o.failed || replaceJsonQuiet r || (oneDocument o && o.stdout.head? == emittedDoc r.cmd)) = true :=
-  Part.one_document_partial
+      oneDocument o && (o.failed || o.stdout.head? == emittedDoc r.cmd
+        || (r.cmd == .replace && (r.dryRun || !r.yes) && o.stdout.head? == some (.pretty n!"Plan")))) = true :=
+  Part.one_document
 
 /-- Nothing but JSON is ever written to stdout in a `--output json` row (no preview, summary, prompt or message). -/
 theorem only_json_on_stdout :
     (jsonRows.all fun r => check r fun o => o.stdout.all Payload.isJson) = true := Part.only_json_on_stdout
 
-/-- WITNESS error_path_no_document (main.rs::main, `Err` arm): every `--output json` row in which a fallible site of the
-    handler fails writes no document at all; the message goes to stderr and the status is not 0.  Every command
-    except `version` has such rows. -/
-theorem C19_witness_error_path_no_document :
+/-- (repaired, formerly WITNESS error_path_no_document) Every `--output json` row in which a fallible site of the handler
+    fails writes exactly the error document `{"success":false,"error":…}` to stdout, the message to stderr, and has a
+    status that is not 0.  Every command except `version` has such rows. -/
+theorem error_rows_print_the_error_document :
     (jsonRows.all fun r => check r fun o =>
-      !o.failed || (o.stdout == [] && !oneDocument o && decide (o.stderrSites ≥ 1) && !o.exitZero)) = true
+      !o.failed || (o.stdout == [errorDoc] && oneDocument o && decide (o.stderrSites ≥ 1) && !o.exitZero)) = true
     ∧ ((Cmd.all.filter (· != .version)).all fun c => jsonRows.any fun r => r.cmd == c && check r (·.failed)) = true :=
-  Part.C19_witness_error_path_no_document
+  Part.error_rows_print_the_error_document
 
 /-- the recorded instance: `renamify undo nosuch --output json` -/
-theorem C19_witness_error_path_no_document_undo :
+theorem error_document_undo :
     outcome { cmd := .undo, json := true, quiet := false, dryRun := false, yes := false, preview := false, noRegex := false,
               planEmpty := false, failAt := some 0 }
-      = some { stdout := [], stderrSites := 1, exitZero := false, performed := [], failed := true } :=
-  Part.C19_witness_error_path_no_document_undo
+      = some { stdout := [errorDoc], stderrSites := 1, exitZero := false, performed := [], failed := true } :=
+  Part.error_document_undo
 
-/-- WITNESS replace_json_quiet_no_document: `replace … --output json --quiet` succeeds (status 0) and writes nothing. -/
-theorem C19_witness_replace_json_quiet_no_document :
-    (jsonRows.all fun r => check r fun o => !(replaceJsonQuiet r && !o.failed) || (o.stdout == [] && o.exitZero)) = true
-    ∧ (jsonRows.any fun r => replaceJsonQuiet r && check r (fun o => !o.failed)) = true :=
-  Part.C19_witness_replace_json_quiet_no_document
-
-/-- The `--preview` option and (except for `replace`) `--quiet` have no influence on a `--output json` row. -/
+/-- The `--preview` option and `--quiet` have no influence on a `--output json` row. -/
 theorem preview_ignored_under_json :
     (jsonRows.all fun r => outcome r == outcome { r with preview := !r.preview }) = true := Part.preview_ignored_under_json
 
-theorem quiet_ignored_under_json_except_replace :
-    (jsonRows.all fun r => r.cmd == .replace || outcome r == outcome { r with quiet := !r.quiet }) = true :=
-  Part.quiet_ignored_under_json_except_replace
+theorem quiet_ignored_under_json :
+    (jsonRows.all fun r => outcome r == outcome { r with quiet := !r.quiet }) = true := Part.quiet_ignored_under_json
 
 /-! ### the document is a member of the declared type -/
 
-/-- The document of every command is a member of every type a wrapper declares for it, in every scenario, except:
-    `history`, `status`. -/
+/-- The document of every command not in `shapeMismatch` is a member of every type a wrapper declares for it, in every
+    scenario (in which every path is valid UTF-8; the planner refuses the others). -/
 theorem conforms_bindings_partial :
-    (Cmd.all.all fun c => (docScenarios c).all fun s => shapeMismatch c s.1 s.2 || conformsCmd c s.1 s.2) = true :=
+    (Cmd.all.all fun c => (docScenarios c).all fun s => shapeMismatch c || conformsCmd c s.1 s.2) = true :=
   Part.conforms_bindings_partial
 
-/-- The bare plan printed by `replace --output json` is a `Plan` of the bindings (no wrapper consumes it). -/
-theorem replace_prints_a_plan :
-    emittedDoc .replace = some (.pretty n!"Plan")
+/-- (repaired, formerly WITNESS replace_json_not_applied / replace_json_quiet_no_document, document side) `replace --output json`
+    prints the result wrapper of `rename` when it applies (`-y`), and the bare plan — a `Plan` of the bindings — as a
+    preview with `--dry-run` or without `-y`. -/
+theorem replace_documents :
+    emittedDoc .replace = some (.jsonOf n!"RenameResult")
+    ∧ check { plainRow .replace with dryRun := true } (fun o => o.stdout == [.pretty n!"Plan"]) = true
+    ∧ check { plainRow .replace with yes := false } (fun o => o.stdout == [.pretty n!"Plan"]) = true
     ∧ conformsGen { replaceEmpty := false, noMatches := false, noRenames := false } (.ref n!"Plan") (.ref n!"Plan") = true :=
-  Part.replace_prints_a_plan
+  Part.replace_documents
 
-/-- (repaired by 7e5290d + regenerated bindings, formerly WITNESS search_mode_required_fields) With an empty replacement
-    `MatchHunk.replace` and `Rename.new_path` are still skipped by serde, but the bindings now declare them optional
-    (`replace?`, `new_path?`), so the plan printed by `search` is a `Plan` in every scenario.  A binding that goes back
-    to a required member (or a new skipped member with a required binding) would falsify this. -/
+/-- (repaired by 7e5290d + regenerated bindings) With an empty replacement `MatchHunk.replace` and `Rename.new_path` are
+    skipped by serde, and the bindings declare them optional, so the plan printed by `search` is a `Plan`. -/
 theorem search_mode_members_optional :
     pres3 { replaceEmpty := true, noMatches := false, noRenames := false } n!"replace" .ifNonEmpty = .absent
     ∧ conformsGen { replaceEmpty := true, noMatches := false, noRenames := true } (.ref n!"MatchHunk") (.ref n!"MatchHunk") = true
@@ -103,12 +111,8 @@ theorem search_mode_members_optional :
     ∧ ((docScenarios .search).all fun s => conformsCmd .search s.1 s.2) = true :=
   Part.search_mode_members_optional
 
-/-- (about `format_json` in isolation; formerly WITNESS non_utf8_plan_null, repaired by 56d4ab2) `PlanResult` /
-    `RenameResult::format_json` render `plan` through `serde_json::to_value(&self.plan).unwrap_or(Value::Null)`: the member
-    is a `Plan` unless the plan cannot be serialised (a path that is not valid UTF-8), and only then `null`, which is not
-    what cliService.search / createPlan declare.  Since 56d4ab2 the planner refuses such a path before any plan exists
-    (the grid cells `*/nonutf8*` are ordinary failing rows), so no command reaches the `serFails` branch;
-    `conforms_bindings_partial` above is about `serFails = false`. -/
+/-- (about `format_json` in isolation; repaired by 56d4ab2) the `plan` member is `null` only when the plan cannot be
+    serialised, which no command reaches any more. -/
 theorem plan_member_null_only_if_unserialisable :
     conformsCmdIn .search { docCtxOf .search false false with serFails := true } = false
     ∧ conformsCmdIn .plan { docCtxOf .plan false false with serFails := true } = false
@@ -119,70 +123,70 @@ theorem plan_member_null_only_if_unserialisable :
         (.ref n!"Plan") (.fallible (.ref n!"Plan")) = true :=
   Part.plan_member_null_only_if_unserialisable
 
-/-- WITNESS history_shape_mismatch: `history --output json` prints `{"entries":[HistoryItem…]}`; `cliService.history`
-    returns it as `HistoryEntry[]` (an object is not an array; a `HistoryItem` has no `created_at`). -/
-theorem C19_witness_history_shape_mismatch :
-    conformsCmd .history false false = false
+/-- history_shape_mismatch, as a statement that is true in both worlds: `history --output json` prints
+    `{"entries":[HistoryItem…]}`, and that is a member of what cliService.history declares exactly when the wrapper unwraps
+    `entries` (at HEAD it returns the whole document as `HistoryEntry[]`: an object is not an array, and a `HistoryItem`
+    is not a `HistoryEntry` even inside the wrapper). -/
+theorem history_conforms_iff_wrapper_unwraps_entries :
+    conformsCmd .history false false = Gen.vscodeHistoryUnwrapsEntries
     ∧ (expectedTypes .history).map (·.1) = [n!"vscode.history"]
-    ∧ conformsGen { replaceEmpty := false, noMatches := false, noRenames := false } (.arr (.ref n!"HistoryEntry")) (.arr (.ref n!"HistoryItem")) = false :=
-  Part.C19_witness_history_shape_mismatch
+    ∧ conformsGen { replaceEmpty := false, noMatches := false, noRenames := false }
+        (.arr (.ref n!"HistoryEntry")) (.arr (.ref n!"HistoryItem")) = false
+    ∧ conformsGen { replaceEmpty := false, noMatches := false, noRenames := false }
+        (.obj [(n!"entries", false, .arr (.ref n!"HistoryEntry"))]) (.obj [(n!"entries", .always, .arr (.ref n!"HistoryItem"))]) = false :=
+  Part.history_conforms_iff_wrapper_unwraps_entries
 
-/-- WITNESS status_shape_mismatch: `status --output json` prints `{pending_plan, history_count, last_operation: string|null}`;
-    `cliService.status` returns it as `Status = { current_plan?: Plan, last_operation?: HistoryEntry }`. -/
-theorem C19_witness_status_shape_mismatch :
-    conformsCmd .status false false = false
+/-- status_shape_mismatch, likewise: `status --output json` prints `{pending_plan, history_count, last_operation: string|null}`,
+    a member of the wrapper's `Status` exactly when that type is the real StatusResult (at HEAD it is
+    `{ current_plan?: Plan, last_operation?: HistoryEntry }`, and neither a string nor null is a HistoryEntry). -/
+theorem status_conforms_iff_wrapper_declares_status_result :
+    conformsCmd .status false false = Gen.vscodeStatusDeclaresPendingPlan
     ∧ (expectedTypes .status).map (·.1) = [n!"vscode.status"]
     ∧ conformsGen { replaceEmpty := false, noMatches := false, noRenames := false } (.ref n!"HistoryEntry") .str = false
     ∧ conformsGen { replaceEmpty := false, noMatches := false, noRenames := false } (.ref n!"HistoryEntry") .null = false :=
-  Part.C19_witness_status_shape_mismatch
+  Part.status_conforms_iff_wrapper_declares_status_result
 
 /-! ### status -/
 
-/-- main's mapping: Ok ↦ 0 (a non-zero code, and nothing on stdout, when the interrupted flag is set: signals are
-    outside the table, every row has `was_interrupted = false`); a command that returned Err always reports one of the
-    codes of the Err arm (the translator rejects an Err arm conditioned on the flag), each of them non-zero; the Err arm
-    writes to stderr and not to stdout; no `process::exit(0)` before the dispatch; the init helpers never write to stdout. -/
+/-- main's mapping: Ok ↦ 0 (a non-zero code, nothing on stdout, when the interrupted flag is set: signals are outside the
+    table); a command that returned Err reports one of the non-zero codes of the Err arm, the message on stderr and —
+    through `emit_json_error` — the error document `{success, error}` on stdout under `--output json`; so do clap's
+    rejection of the argv and every exit before the dispatch (but the signal handler's 130); none of those exits is 0;
+    the init helpers never write to stdout. -/
 theorem exit_code_discipline :
     Gen.exitOk = 0 ∧ Gen.exitOkInterrupted.all (· != 0) = true ∧ Gen.okArmStdoutSites = 0
     ∧ errCodes.all (· != 0) = true ∧ Gen.errArmStdoutSites = 0 ∧ Gen.errArmStderrSites ≥ 1
+    ∧ Gen.errArmJsonDoc = true ∧ Gen.clapErrorJsonDoc = true
+    ∧ (match docShape errorDoc with
+       | some (.obj fs) => fs.map (·.1) == [n!"success", n!"error"]
+       | _ => false) = true
     ∧ Gen.preDispatchExits.all (fun e => e.2.1 != n!"0") = true
+    ∧ Gen.preDispatchExits.all (fun e => e.2.1 == n!"130" || e.2.2.2) = true
     ∧ Gen.initHelperStdoutSites.all (fun e => e.2 == 0) = true := Part.exit_code_discipline
 
-/-- The status is 0 exactly when nothing failed and the requested operations were performed — in every row (json or
-    not) except `replace` asked to apply (`-y`, no `--dry-run`, something to do) with `--output json`. -/
-theorem status_zero_iff_success_partial :
-    (rows.all fun r => check r fun o => replaceEarlyReturn r || (o.exitZero == succeeded r o)) = true :=
-  Part.status_zero_iff_success_partial
+/-- The status is 0 exactly when nothing failed and the requested operations were performed — in every row. -/
+theorem status_zero_iff_success :
+    (rows.all fun r => check r fun o => o.exitZero == succeeded r o) = true := Part.status_zero_iff_success
 
-/-- WITNESS replace_json_not_applied: in every such row in which nothing fails the status is 0, `apply_plan` was asked for
-    and never called. -/
-theorem C19_witness_replace_early_return :
-    (rows.all fun r => check r fun o => !(replaceEarlyReturn r && !o.failed) ||
-        (o.exitZero && (intended r).contains n!"apply_plan" && !o.performed.contains n!"apply_plan" && !succeeded r o)) = true
-    ∧ (rows.any fun r => replaceEarlyReturn r && check r (fun o => !o.failed)) = true :=
-  Part.C19_witness_replace_early_return
-
-theorem C19_witness_replace_json_not_applied :
-    check (plainRow .replace)
-      (fun o => o.stdout == [.pretty n!"Plan"] && o.exitZero && !o.performed.contains n!"apply_plan") = true :=
-  Part.C19_witness_replace_json_not_applied
-
-/-- (repaired by 9b4e272, formerly WITNESS replace_quiet_not_applied) In the summary format `replace -y` without
-    `--dry-run` and with something to do calls `apply_plan` and succeeds whether or not `--quiet` is given, and with
-    `--quiet` it writes nothing to stdout.  An early return of the quiet path would falsify this. -/
-theorem replace_quiet_applies :
+/-- (repaired, formerly WITNESS replace_json_not_applied / replace_quiet_not_applied) `replace -y` without `--dry-run` and
+    with something to do calls `apply_plan` and succeeds in every format; under `--output json` it prints the result
+    document (also with `--quiet`), in the summary format `--quiet` prints nothing. -/
+theorem replace_applies :
     (rows.all fun r => check r fun o =>
-      !(r.cmd == .replace && !r.json && r.yes && !r.dryRun && !r.planEmpty && !o.failed) ||
-        (o.performed.contains n!"apply_plan" && succeeded r o && (!r.quiet || o.stdout == []))) = true
-    ∧ check { plainRow .replace with json := false, quiet := true }
-        (fun o => o.stdout == [] && o.exitZero && o.performed.contains n!"apply_plan") = true :=
-  Part.replace_quiet_applies
+      !(r.cmd == .replace && r.yes && !r.dryRun && !r.planEmpty && !o.failed) ||
+        (o.performed.contains n!"apply_plan" && succeeded r o
+          && (!r.json || o.stdout == [.jsonOf n!"RenameResult"]) && (r.json || !r.quiet || o.stdout == []))) = true
+    ∧ (rows.any fun r => r.cmd == .replace && r.json && r.quiet && r.yes && !r.dryRun && !r.planEmpty
+          && check r (fun o => !o.failed)) = true :=
+  Part.replace_applies
 
 /-! ### the sources outside the handlers are as the model assumes -/
 
-/-- The only stdout emission sites of the core library outside `RENAMIFY_DEBUG_*` guards are the two inside
-    `rename_operation` (preview before the prompt, the prompt) and the uncalled `write_preview`. -/
-theorem core_sites_as_modelled : Gen.coreStdoutSites = assumedCoreSites := Part.core_sites_as_modelled
+/-- Every stdout emission site of the core library outside `RENAMIFY_DEBUG_*` guards is one of the known ones, and the
+    confirmation prompt of `rename_operation` is not among them any more (it goes to stderr). -/
+theorem core_sites_as_modelled :
+    (Gen.coreStdoutSites.all fun s => knownCoreSites.contains s) = true
+    ∧ (Gen.coreStdoutSites.any fun s => s.2.1 == n!"get_user_confirmation") = false := Part.core_sites_as_modelled
 
 /-- Every command has a handler with an event list, and emits a document of a known shape. -/
 theorem table_is_total :
